@@ -460,6 +460,7 @@ type c05CCase struct {
 	NextC string `json:"nextC"`
 	NextE string `json:"nextE"`
 	Op    string `json:"op"` // addE | addN | addM
+	Rand  int64  `json:"rand"` // != 0: random damage instead of the classes
 }
 
 // The undamaged file: records E and C share a bucket (chain head -> C -> E),
@@ -529,7 +530,8 @@ func c05MakeBase(t *testing.T) *c05Base {
 	b.nameV = ""
 	for j := 0; ; j++ {
 		n := c05RealName(fmt.Sprintf("Lv.%d", j))
-		if h := rt.V1Hash(n); !used[h] && h >= 100 && h < 400 {
+		// (the slot of V's bucket is the link field of a record written 12 bytes below it)
+		if h := rt.V1Hash(n); !used[h] && h >= 100 && h < 400 && (b.hdrLen+4+4*h-12)%32 == 0 {
 			b.nameV, b.bV = n, h
 			used[h] = true
 			break
@@ -599,7 +601,7 @@ func c05Concretize(b *c05Base, c *c05CCase) []byte {
 	case "hdr":
 		put32(data, b.hdrLen, 64)
 	case "table":
-		put32(data, b.hdrLen, (tab+4*b.bV)&^31) // the record written there covers V's bucket head
+		put32(data, b.hdrLen, tab+4*b.bV-12) // a record written there has its link field on V's bucket head
 	case "low":
 		put32(data, b.hdrLen, b.offC)
 	case "unaligned":
@@ -678,6 +680,130 @@ func c05Concretize(b *c05Base, c *c05CCase) []byte {
 	return data
 }
 
+// c05RandomDamage overwrites 1..3 words of the undamaged file (allocation
+// limit, bucket heads, name lengths, links) with values from pools of
+// interesting offsets.  Pointers are 32-aligned or out of range, so that the
+// independent decoder and the library agree on which records exist.
+func c05RandomDamage(b *c05Base, seed int64) ([]byte, []string) {
+	rng := mrand.New(mrand.NewSource(seed))
+	data := append([]byte(nil), b.data...)
+	size := uint32(len(data))
+	tab := b.hdrLen + 4
+	first := (tab + 4*rt.V1NumHash + 31) &^ 31
+	alignedIn := func() uint32 { return first + 32*uint32(rng.Intn(int((size-first)/32))) }
+	ptrs := func() uint32 {
+		pool := []uint32{0, b.offE, b.offC, b.offV, b.offC + 32, 64, b.emptySlots, size + 32, 0xffffffff, first, (b.limit + 63) &^ 31, alignedIn(), alignedIn()}
+		return pool[rng.Intn(len(pool))]
+	}
+	limits := func() uint32 {
+		pool := []uint32{0, 64, tab + 4*b.bV - 12, tab + 4*b.bE - 12, b.offC, b.offE + 32, b.limit, b.limit + 4, b.limit + 32, size, size + rt.V1Page, 0xfffffff0, alignedIn(), alignedIn()}
+		return pool[rng.Intn(len(pool))]
+	}
+	nlens := []uint32{0, 1, 2, 5, 16, 0xffffff} // no name may run into another record
+	recs := map[string]uint32{"E": b.offE, "C": b.offC, "V": b.offV}
+	rn := []string{"E", "C", "V"}
+	var desc []string
+	for k := 1 + rng.Intn(3); k > 0; k-- {
+		switch rng.Intn(8) {
+		case 0, 1:
+			v := limits()
+			put32(data, b.hdrLen, v)
+			desc = append(desc, fmt.Sprintf("limit=%#x", v))
+		case 2:
+			v := ptrs()
+			put32(data, tab+4*b.bE, v)
+			desc = append(desc, fmt.Sprintf("head[bE]=%#x", v))
+		case 3:
+			v := ptrs()
+			put32(data, tab+4*b.bN, v)
+			desc = append(desc, fmt.Sprintf("head[bN]=%#x", v))
+		case 4:
+			v := ptrs()
+			h := uint32(rng.Intn(rt.V1NumHash))
+			if rng.Intn(2) == 0 {
+				h = b.bV
+			}
+			put32(data, tab+4*h, v)
+			desc = append(desc, fmt.Sprintf("head[%d]=%#x", h, v))
+		case 5, 6:
+			r := rn[rng.Intn(3)]
+			v := ptrs()
+			put32(data, recs[r]+12, v)
+			desc = append(desc, fmt.Sprintf("next[%s]=%#x", r, v))
+		case 7:
+			r := rn[rng.Intn(3)]
+			v := nlens[rng.Intn(len(nlens))]
+			put32(data, recs[r]+8, 0xff000000|v)
+			desc = append(desc, fmt.Sprintf("nlen[%s]=%#x", r, v))
+		}
+	}
+	return data, desc
+}
+
+// c05LimitClass abstracts the allocation limit of a (damaged) file into the
+// vocabulary of Corrupt.tla.
+func c05LimitClass(b *c05Base, data []byte) string {
+	if len(data) < int(b.hdrLen)+4 {
+		return "-"
+	}
+	lim := binary.LittleEndian.Uint32(data[b.hdrLen:])
+	first := b.hdrLen + 4 + 4*rt.V1NumHash
+	var maxEnd uint32
+	for _, r := range rt.DecodeV1(data).Records {
+		if e := r.Off + (uint32(16+len(r.Name))+31)&^31; e > maxEnd {
+			maxEnd = e
+		}
+	}
+	switch {
+	case lim == 0 && maxEnd == 0:
+		return "ok"
+	case lim == 0:
+		return "zero"
+	case lim < b.hdrLen+4:
+		return "hdr"
+	case lim < first:
+		return "table"
+	case lim >= 0xffffffe0:
+		return "near32"
+	case int64(lim) > int64(len(data)):
+		return "beyondfile"
+	case lim < maxEnd:
+		return "low"
+	case lim%32 != 0:
+		return "unaligned"
+	}
+	return "ok"
+}
+
+// c05ChainClass walks the hash chain of name the way the layout documents
+// it (independent of the library): found | absent | invalid | cycle.
+func c05ChainClass(b *c05Base, data []byte, name string) string {
+	size := int64(len(data))
+	if size < int64(b.hdrLen)+4+4*rt.V1NumHash {
+		return "-"
+	}
+	off := binary.LittleEndian.Uint32(data[b.hdrLen+4+4*rt.V1Hash(name):])
+	seen := map[uint32]bool{}
+	for off != 0 {
+		if seen[off] {
+			return "cycle"
+		}
+		seen[off] = true
+		if off < b.hdrLen+4 || int64(off)+16 > size {
+			return "invalid"
+		}
+		n := binary.LittleEndian.Uint32(data[off+8:]) & 0xffffff
+		if n == 0 || int64(off)+16+int64(n) > size {
+			return "invalid"
+		}
+		if string(data[off+16:off+16+n]) == name {
+			return "found"
+		}
+		off = binary.LittleEndian.Uint32(data[off+12:])
+	}
+	return "absent"
+}
+
 func c05Reachable(b *c05Base, data []byte) map[string]uint64 {
 	m := map[string]uint64{}
 	for _, r := range rt.DecodeV1(data).Records {
@@ -706,7 +832,13 @@ func c05RunCorrupt(t *testing.T, b *c05Base, c *c05CCase, budget int) {
 	os.WriteFile(filepath.Join(local, "weekends"), []byte("2\n"), 0666)
 	os.WriteFile(filepath.Join(w.dir, "mode"), []byte("local"), 0666)
 	path := filepath.Join(local, c05CountName(c05T1))
-	orig := c05Concretize(b, c)
+	var orig []byte
+	var desc []string
+	if c.Rand != 0 {
+		orig, desc = c05RandomDamage(b, c.Rand)
+	} else {
+		orig = c05Concretize(b, c)
+	}
 	if err := os.WriteFile(path, orig, 0666); err != nil {
 		t.Fatal(err)
 	}
@@ -721,7 +853,7 @@ func c05RunCorrupt(t *testing.T, b *c05Base, c *c05CCase, budget int) {
 	}()
 	before := c05Reachable(b, orig)
 	out := rt.M{"kind": "case", "id": c.ID, "open": "", "ret": "ok", "steps": 0, "where": "", "text": "", "mode": "", "dP": 0, "dE": 0,
-		"others": false, "untouched": false, "lost": "", "size": len(orig)}
+		"others": false, "untouched": false, "lost": "", "size": len(orig), "limClass": c05LimitClass(b, orig), "damage": desc, "chain": "-"}
 	ret, n, where, text := c05h.Run("open", budget, func() { w.f.rotate1() })
 	out["steps"] = n
 	if ret != "ok" {
@@ -746,6 +878,7 @@ func c05RunCorrupt(t *testing.T, b *c05Base, c *c05CCase, budget int) {
 	case "addM":
 		name, short = b.nameM, b.nameM
 	}
+	out["chain"] = c05ChainClass(b, orig, name)
 	ctr := &Counter{name: name, file: w.f}
 	const amount = 3
 	ret, n, where, text = c05h.Run(c.Op, budget, func() { ctr.Add(amount) })
